@@ -247,9 +247,10 @@ theorem local_lpropStore {p p' : Ptr} {lpid : Nat} (hid : p'.id = p.id) (hsc : p
     (hnew : CName.col lpid ∉ p.lpropCols)
     (hmono : p.hasTable = true → p'.hasTable = true)
     (hempty : p.hasTable = false → p'.hasTable = true → p.lpropCols = []) :
-    LocalOK p p' (lpropStoreOps p p' lpid) := by
+    LocalOK p p' (lpropStoreOps p p' (.col lpid) false) := by
   intro c ag
   unfold lpropStoreOps
+  simp only [Bool.false_eq_true, if_false]
   by_cases hht' : p'.hasTable = true
   · simp only [hht', if_true]
     by_cases hht : p.hasTable = true
@@ -311,7 +312,7 @@ theorem local_lpropUnstore {p p' : Ptr} {lpid : Nat} (hid : p'.id = p.id) (hsc :
     (hcols : ∀ c, c ∈ p'.lpropCols ↔ c ≠ .col lpid ∧ c ∈ p.lpropCols)
     (hold : CName.col lpid ∈ p.lpropCols)
     (hmono : p'.hasTable = true → p.hasTable = true) :
-    LocalOK p p' (lpropUnstoreOps p p' lpid) := by
+    LocalOK p p' (lpropUnstoreOps p p' (.col lpid)) := by
   intro c ag
   unfold lpropUnstoreOps
   by_cases hht' : p'.hasTable = true
